@@ -110,6 +110,51 @@ def c16_link(R):
             R.check(f"C16.link.union[{label}]", L + "::Linker.Link", ok, detail=det, replay=rp)
             R.check(f"C16.link.once[{label}]", L + "::Linker.Link", once, detail=f"loads per module: {dict(ld.loads)} (every imported module exactly once, added modules never)", replay=rp)
             R.check(f"C16.link.identity[{label}]", L + "::Linker.Link", same_objects, detail="the linked table must hold the modules' own function objects")
+            # frame: linking reads the modules -- afterwards every module still has its imports, functions and globals, and linking the SAME module
+            # objects again (another order tried, the program linked a second time, a module stored after a trial link) gives the same program
+            try:
+                kept = all(set(objs[n].Imports) == set(spec[2]) and sorted(objs[n].Functions) == sorted(spec[0]) and sorted(objs[n].Globals) == sorted(spec[1]) for n, spec in mods.items())
+                detk = "; ".join(f"{n}: imports {sorted(objs[n].Imports)} (had {sorted(spec[2])})" for n, spec in mods.items() if set(objs[n].Imports) != set(spec[2]))
+            except Exception as e:
+                kept, detk = False, f"{type(e).__name__}: {e}"
+            try:
+                lk2 = ir.Linker(loader=CountingLoader(objs))
+                for r in reversed(order):
+                    lk2.AddModule(objs[r])
+                prog2 = lk2.Link()
+                again = sorted(prog2.Functions) == want_f and sorted(prog2.Globals) == want_g
+                deta = f"second link of the same module objects: functions {sorted(prog2.Functions)}, expected {want_f}"
+            except Exception as e:
+                again, deta = False, f"second link of the same module objects raised {type(e).__name__}: {e}"
+            rp2 = script("""
+                from nsl import LinearIR
+                import collections
+                mods, roots = {{mods}}, {{order}}
+                def mk(fs, gs, imps):
+                    m = LinearIR.Module()
+                    for f in fs: m.CreateFunction(f, LinearIR.FunctionType(LinearIR.IntegerType(), collections.OrderedDict()))
+                    for g in gs: m.CreateGlobalVariable(g, LinearIR.IntegerType())
+                    for i in imps: m.AddImport(i)
+                    return m
+                objs = {n: mk(*s) for n, s in mods.items()}
+                ld = LinearIR.MemoryModuleLoader()
+                for n, m in objs.items(): ld.AddModule(n, m)
+                want = sorted(f for s in mods.values() for f in s[0])
+                res = []
+                for attempt in (1, 2):
+                    lk = LinearIR.Linker(loader=ld)
+                    try:
+                        for r in roots: lk.AddModule(objs[r])
+                        res.append(sorted(lk.Link().Functions))
+                    except Exception as e:
+                        res.append('raised %s: %s' % (type(e).__name__, e))
+                imports = {n: sorted(objs[n].Imports) for n in mods}
+                print('two links of the same modules:', res, '; expected', want, 'both times; imports afterwards', imports)
+                if res != [want, want] or any(imports[n] != sorted(mods[n][2]) for n in mods): print('REPLAY-CONFIRMED')
+                """, mods={n: (list(s[0]), list(s[1]), list(s[2])) for n, s in mods.items()}, order=list(order))
+            if ok:
+                R.check(f"C16.link.frame.modules-unchanged[{label}]", L + "::Linker.Link", kept, detail=f"a module was changed by linking: {detk}", replay=rp2)
+                R.check(f"C16.link.frame.relink[{label}]", L + "::Linker.Link", again, detail=deta, replay=rp2)
     # a module both added and imported (same object from the loader) is not loaded / added twice
     objs = {"main": mk_module(["f"], [], ["lib"]), "lib": mk_module(["h"], ["gl"], [])}
     for order in (("main", "lib"), ("lib", "main")):
